@@ -22,6 +22,45 @@ class CountingClock:
         pass
 
 
+class ShiftedClock:
+    """the real clocks advanced by a constant: what every clock of a process that was started `offset` seconds earlier reads"""
+    def __init__(self, offset):
+        self.offset = offset
+
+    def perf_counter(self): return _time.perf_counter() + self.offset
+    def time(self): return _time.time() + self.offset
+    def monotonic(self): return _time.monotonic() + self.offset
+    def process_time(self): return _time.process_time() + self.offset
+    def sleep(self, *_): pass
+
+
+class aged_process:
+    """inside the block every prtpy module that refers to the `time` module or to one of its clock functions sees clocks
+    shifted by `offset` seconds, as if the interpreter (and the import of prtpy) were that much older than the call"""
+    def __init__(self, offset=1e6):
+        self.clock = ShiftedClock(offset)
+        self.saved = []
+
+    def __enter__(self):
+        import sys
+        for mname, mod in list(sys.modules.items()):
+            if mod is None or not (mname == "prtpy" or mname.startswith("prtpy.")):
+                continue
+            g = vars(mod)
+            for name, val in list(g.items()):
+                if val is _time:
+                    self.saved.append((g, name, val)); g[name] = self.clock
+                elif isinstance(val, types.BuiltinFunctionType) and getattr(val, "__module__", None) == "time" \
+                        and val.__name__ in ("perf_counter", "time", "monotonic", "process_time"):
+                    self.saved.append((g, name, val)); g[name] = getattr(self.clock, val.__name__)
+        return self
+
+    def __exit__(self, *exc):
+        for g, name, val in self.saved:
+            g[name] = val
+        return False
+
+
 class patched_clock:
     def __init__(self, module):
         self.module = module
